@@ -125,6 +125,10 @@ type World struct {
 
 	genesisPending bool // InitChain done, first block not yet committed (state lives in the deliver state)
 
+	Evm           map[string]*EvmState // external chains backed by the real contract (optional)
+	published     map[string]*mhubtypes.BatchTx
+	publishedSigs map[string][]pubSig
+
 	lastEvents [][]byte // serialized ABCI responses of the current block (for determinism checks)
 	stepNo     int
 }
@@ -364,7 +368,10 @@ func holderAddr(n *Names, name string) string {
 // New creates an application on a fresh MemDB and runs InitChain with the configured genesis.
 func New(cfg Cfg) *World {
 	SetAddrCfg()
-	n := NewNames()
+	return newWorldWithNames(cfg, NewNames())
+}
+
+func newWorldWithNames(cfg Cfg, n *Names) *World {
 	gs, _ := BuildGenesis(cfg, n)
 	w := newApp(cfg, n)
 	stateBytes, err := json.Marshal(gs)
@@ -439,6 +446,7 @@ type Outcome struct {
 	Log  string `json:"log,omitempty"`
 	Id   uint64 `json:"id,omitempty"`
 	Hash string `json:"hash,omitempty"`
+	Ev   J      `json:"ev,omitempty"` // the bridge event an external-chain action emitted
 }
 
 const blockOpTimeout = 20 * time.Second
